@@ -401,10 +401,10 @@ def run_case(case: dict, driver):
 # ------------------------------------------------------------------------------------------------
 # generators
 # ------------------------------------------------------------------------------------------------
-INTERVALS = ["1", "2", "4", "8", "10"]
+INTERVALS = ["1", "2", "4", "8", "10", "1/1024", "1/2048"]      # incl. sub-millisecond pacing
 OFFSETS = ["0", "0", "0", "1/4", "1", "3"]
 SCALES = ["1/2", "1", "1", "2", "4"]
-DUR = ["0", "1/4", "1", "2", "3", "4", "5", "8", "13", "40"]
+DUR = ["0", "1/4", "1", "2", "3", "4", "5", "8", "13", "40", "1/4096", "1/8192"]
 OVH = ["0", "0", "0", "1/8", "1/2"]
 
 
